@@ -227,6 +227,33 @@ def dot(ctx, rep, r1, r2, r3, r4, r5):
                       and args[1][1][1] == job, r2, site + " ends at an atomic job of the requiring cluster", fn,
                       "second end %s" % (T.show(args[1], 3) if len(args) > 1 else None),
                       "an edge ends at a cluster id, which DOT does not allow", trace(e.st))
+    # the helpers that pick the end point inside a cluster must return an atomic job
+    helpers = set()
+    for e in edges:
+        for a in e.data['args'][:2]:
+            if a[0] == 'mcall' and a[2] == 'repr_id' and a[1][0] == 'mcall':
+                helpers.add(a[1][2])
+    for hname in sorted(helpers):
+        hf = p.supplier(r.sched, hname)
+        if hf is None:
+            continue
+        han, hip, hout = ctx.explore(hf, model=DotModel)
+        hrets = han.events('RET')
+        rep.need(r2 + ":" + hname, len(hrets), 1, "returns of the end-point helper")
+        for e in hrets:
+            v = e.data['val']
+            if v[0] == 'mcall' and v[2] == hname:
+                rep.ok(r2, "%s recursion into the nested scheduler" % e.where)
+                continue
+            atomic = False
+            for k, val in e.st.facts.items():
+                x = _is_sched_test(ctx, k)
+                if x is not None and x == v and val is False:
+                    atomic = True
+            rep.check(atomic, r2, "%s end point is an atomic job" % e.where, hf.qualname,
+                      "`%s` returns %s without having established that it is not a scheduler"
+                      % (src(stmt_of(e.node)), T.show(v, 3)),
+                      "an edge ends at a cluster id: graphviz creates an extra, undeclared node", trace(e.st))
     for case in ((False, False), (False, True), (True, False), (True, True)):
         rep.check(case in cases and len(cases[case]) == 1, r2,
                   "%s one edge statement for job=%s requirement=%s" % (fn, "cluster" if case[0] else "node",
